@@ -33,7 +33,7 @@ ASSUMPTIONS = [
     "header lines contain ASCII only (the parser opens files in the locale's encoding)",
 ]
 REQUIRED = {"all": ["layouts", "clean_parsed", "corruptions_rejected", "corruptions_still_valid", "second_header_cases",
-                    "star_cases", "same_size_overwrites", "object_battery_compared", "crlf_layouts", "numbered_layouts", "second_file_object_checked"]}
+                    "star_cases", "same_size_overwrites", "object_battery_compared", "crlf_layouts", "numbered_layouts", "second_file_object_checked", "pathlib_paths", "relative_paths"]}
 NLAYOUT = {"quick": 600, "thorough": 6000}
 NCORR = {"quick": 30, "thorough": 60}
 PANEL = list("*>#-_.,;:!?@$%&/\\|()[]{}<=+~^'\"`") + list("BJOUXZbjouxz") + list("aceg") + ["\t", "\x0c", "\x00", "\x7f", "\n",
@@ -187,12 +187,31 @@ def cases(tier, seed):
         yield {"s": gen.rand_seq(rng, hi=300 if i % 5 == 0 else 90), "o": rng.randrange(1 << 30)}
 
 
-def parse_real(S, path, rng):
+def path_form(path, rng, rep):
+    """The same file named the way users name files: absolute, relative to the current directory, pathlib."""
+    import pathlib
+    r = rng.random()
+    if r < 0.6:
+        return path, None
+    if r < 0.8:
+        rep.cnt("pathlib_paths")
+        return pathlib.Path(path), None
+    rep.cnt("relative_paths")
+    return os.path.basename(path), os.path.dirname(path)
+
+
+def parse_real(S, path, rng, rep):
     P = S["parsermod"].SequenceFileParser
+    arg, cwd = path_form(path, rng, rep)
+    old = os.getcwd()
     try:
-        return P().parseSeqFile(path) if rng.random() < 0.7 else P().parseSeqFile(path, silent=True)
+        if cwd:
+            os.chdir(cwd)
+        return P().parseSeqFile(arg) if rng.random() < 0.7 else P().parseSeqFile(arg, silent=True)
     except Exception as e:
         return ERR
+    finally:
+        os.chdir(old)
 
 
 def write(path, text):
@@ -204,7 +223,7 @@ def judge(case, rep, S):
     seq = case["s"]
     rng = gen.sub_rng(case["o"], ID)
     text, info = build_layout(rng, seq)
-    path = os.path.join(_dir["path"], "seqfile_%d.txt" % (case["o"] % 3))
+    path = os.path.join(_dir["path"], ["seqfile_0.txt", "my sequence (copy) 1.fasta", "s\u00e9quence_\u03b1_2.txt"][case["o"] % 3])
     rep.cnt("layouts")
     if info["newline"] == repr("\r\n"):
         rep.cnt("crlf_layouts")
@@ -219,7 +238,7 @@ def judge(case, rep, S):
         write(path, content)
         if prev_ok and size == prev_size:
             rep.cnt("same_size_overwrites")
-        got = parse_real(S, path, rng)
+        got = parse_real(S, path, rng, rep)
         prev_size, prev_ok = size, (got != ERR)
         if want == UNSPEC:
             rep.cnt("unspecified_not_judged")
